@@ -419,3 +419,10 @@ class NativeFn:
 
     def __init__(self, fn, name):
         self.fn, self.name = fn, name
+
+
+class SPredSet:
+    """A collection known only through membership: `x in S` is an uninterpreted predicate of x (an arbitrary set of ints)."""
+
+    def __init__(self, fn, name):
+        self.fn, self.name = fn, name
